@@ -21,10 +21,11 @@ Proof. exact literal_roundtrip. Qed.
 Print Assumptions C11_literal_roundtrip.
 
 (** The same, grammar-directed: for every list of admissible pieces (ordinary characters, the four
-    escapes, \{ \}, holes naming bound variables). *)
+    escapes, \{ \}, holes naming bound variables, the byte order mark as one piece: [nosplit] says the
+    three bytes EF BB BF are not written as three separate ordinary characters). *)
 Theorem C11_literal_roundtrip_pieces :
   forall f e ps rest,
-    forallb (ok_piece f e) ps = true ->
+    forallb (ok_piece f e) ps = true -> nosplit ps = true ->
     pipeline f e (spell ps ++ close f :: rest) = (Ok (meaning e ps), rest).
 Proof. exact literal_roundtrip_pieces. Qed.
 Print Assumptions C11_literal_roundtrip_pieces.
@@ -32,7 +33,8 @@ Print Assumptions C11_literal_roundtrip_pieces.
 (** [denote] is defined exactly on the spellings of admissible pieces, with the pieces' meaning
     (the byte-level grammar and the piece-level grammar coincide). *)
 Theorem C11_denote_spell :
-  forall f e ps, forallb (ok_piece f e) ps = true -> denote f e (spell ps) = Some (meaning e ps).
+  forall f e ps, forallb (ok_piece f e) ps = true -> nosplit ps = true ->
+    denote f e (spell ps) = Some (meaning e ps).
 Proof. exact denote_spell. Qed.
 Print Assumptions C11_denote_spell.
 
@@ -53,6 +55,16 @@ Theorem C11_newline_in_quoted_preserved :
     pipeline f [] (["a"; LF; "b"] ++ close f :: rest) = (Ok ["a"; LF; "b"], rest).
 Proof. exact newline_in_quoted_preserved. Qed.
 Print Assumptions C11_newline_in_quoted_preserved.
+
+(** A byte order mark U+FEFF inside a literal of any of the four forms, between any ordinary characters,
+    is preserved (both scanners write it as an escape since their repair). *)
+Theorem C11_bom_in_literal_preserved :
+  forall f x y rest,
+    forallb (fun c => ok_char f c && negb (Ascii.eqb c EF)) x = true ->
+    forallb (fun c => ok_char f c && negb (Ascii.eqb c EF)) y = true ->
+    pipeline f [] (x ++ BOM ++ y ++ close f :: rest) = (Ok (x ++ BOM ++ y), rest).
+Proof. exact bom_in_literal_preserved. Qed.
+Print Assumptions C11_bom_in_literal_preserved.
 
 (** Documentation of the repaired defect: with the tokenizer as it was before ([scan_string_old] inside
     [pipeline_old]) the newline was kept verbatim and the emitted Go did not compile. *)
@@ -99,6 +111,12 @@ Example C11_example_newline_in_quoted :
   wf IStr ex_env (b "x" ++ [LF] ++ b "{a}") = true /\
   pipeline IStr ex_env (b "x" ++ [LF] ++ b "{a}"" rest") = (Ok (b "x" ++ [LF] ++ b "-42"), b " rest").
 Proof. vm_compute. split; reflexivity. Qed.
+
+Example C11_example_bom :
+  wf IRaw ex_env (b "a" ++ BOM ++ b "{a}") = true /\
+  pipeline IRaw ex_env (b "a" ++ BOM ++ b "{a}` rest") = (Ok (b "a" ++ BOM ++ b "-42"), b " rest") /\
+  emit IRaw (b "a\ufeff{a}") = Some (GoSInterP (b "a\ufeff%s") [b "a"]).
+Proof. vm_compute. repeat split; reflexivity. Qed.
 
 (** outside the grammar the model predicts fc's / Go's actual behaviour (not part of the property) *)
 Example C11_example_unknown_escape :
